@@ -204,9 +204,17 @@ def compile_level(ctx):
         kern_variant = rng.choice([None] + USER_FEA[4:10])
         if kern_variant:
             parts.insert(rng.randint(0, len(parts)), kern_variant)
+        # a hand-written GDEF table: glyph classes, ligature carets by position or by contour point, or both
+        GDEF_PARTS = {"classes": "    GlyphClassDef [A V a o f i a.alt], [f_i], [acutecomb], ;\n",
+                      "caret-pos": "    LigatureCaretByPos f_i 222;\n", "caret-index": "    LigatureCaretByIndex f_i 2;\n"}
+        gdef_variant = [None, ("classes",), ("caret-pos",), ("caret-index",), ("classes", "caret-index"), None][i % 6]
+        if gdef_variant:
+            parts.append("table GDEF {\n" + "".join(GDEF_PARTS[k] for k in gdef_variant) + "} GDEF;\n")
         fea = "".join(parts)
-        glyphs = [{"name": n, "unicodes": [u] if u else [], "width": 0 if n == "acutecomb" else 500, "contours": [],
-                   "anchors": ([("top", Fr(250), Fr(600))] if n in ("a", "o", "A") else []) + ([("_top", Fr(0), Fr(500))] if n == "acutecomb" else [])}
+        glyphs = [{"name": n, "unicodes": [u] if u else [], "width": 0 if n == "acutecomb" else 500,
+                   "contours": [[(Fr(0), Fr(0), "line"), (Fr(480), Fr(0), "line"), (Fr(480), Fr(500), "line"), (Fr(0), Fr(500), "line")]] if n == "f_i" else [],
+                   "anchors": ([("top", Fr(250), Fr(600))] if n in ("a", "o", "A") else []) + ([("_top", Fr(0), Fr(500))] if n == "acutecomb" else [])
+                              + ([("caret_1", Fr(260), Fr(0))] if n == "f_i" else [])}
                   for n, u in names]
         desc = {"glyphs": glyphs, "features": fea, "kerning": {("A", "V"): Fr(-50), ("V", "A"): Fr(-40), ("a", "o"): Fr(-10)}}
         case = {"features": fea}
@@ -228,6 +236,23 @@ def compile_level(ctx):
         if g1 != g0:
             ctx.spec_failure(case, "GSUB differs with the automatic writers (%s) vs without (%s)" % (
                 None if g1 is None else len(g1), None if g0 is None else len(g0)))
+        # what the user wrote in GDEF is neither overwritten nor added to
+        def gdef_view(tt):
+            if "GDEF" not in tt:
+                return {}, {}
+            tb = tt["GDEF"].table
+            carets = {}
+            if tb.LigCaretList is not None:
+                for gname, lg in zip(tb.LigCaretList.Coverage.glyphs, tb.LigCaretList.LigGlyph):
+                    carets[gname] = [(getattr(c, "Format", None), getattr(c, "Coordinate", None), getattr(c, "CaretValuePoint", None)) for c in lg.CaretValue]
+            return (dict(tb.GlyphClassDef.classDefs) if tb.GlyphClassDef is not None else {}), carets
+        if gdef_variant:
+            (c1, k1), (c0, k0) = gdef_view(t1), gdef_view(t0)
+            ctx.klass("user GDEF: " + "+".join(gdef_variant))
+            if any(k.startswith("caret") for k in gdef_variant) and k1 != k0:
+                ctx.spec_failure(dict(case, with_writers=k1, user_only=k0), "the user's GDEF ligature carets were changed by the automatic writers")
+            if "classes" in gdef_variant and c1 != c0:
+                ctx.spec_failure(dict(case, with_writers=c1, user_only=c0), "the user's GDEF glyph classes were changed by the automatic writers")
         gn = [n for n, _ in names]
         user = Parser(io.StringIO(fea), glyphNames=gn).parse()
         final = Parser(io.StringIO(dbg.getvalue()), glyphNames=gn).parse()
@@ -237,7 +262,8 @@ def compile_level(ctx):
             for st in ff.statements:
                 if isinstance(st, ast.Comment):
                     continue
-                if isinstance(st, ast.FeatureBlock):
+                if isinstance(st, (ast.FeatureBlock, ast.TableBlock)):
+                    # (the GDEF writer may add the statements the user did not write to the user's own table block)
                     for x in st.statements:
                         if not isinstance(x, ast.Comment):
                             res.append((st.name, x.asFea()))
